@@ -18,7 +18,6 @@ import (
 	"strings"
 	"sync"
 	"time"
-	"unicode/utf8"
 
 	"golang.org/x/net/http/httpguts"
 	"google.golang.org/grpc/codes"
@@ -356,7 +355,10 @@ func classifyBody(h http.Header, body []byte, st int) (ct string, wf int, tr int
 	case "json", "sse":
 		wf = b01(jsonStreamOK(body))
 	case "text":
-		wf = b01(utf8.Valid(body))
+		// A plain-text (error) body has no structure to check. It may echo raw client bytes: when a status message
+		// contains invalid UTF-8 the JSON error body cannot be produced and webbridge falls back to text/plain
+		// (C10's clause); HTTP itself does not constrain the bytes of a body, so this is not judged here.
+		wf = 1
 	case "none":
 		wf = b01(len(body) == 0 || st == 101)
 	default:
